@@ -70,6 +70,8 @@ def gen_pair(rng):
     els[0]['link'] = 'joint'
     m = dict(J=J, w0=['AngularSpeed', 1000.0, 'rpm'], Tmax=['Torque', 1.0, 'Nm'],
              i0=['Current', 0.1, 'A'] if cur else None, imax=['Current', 2.0, 'A'] if cur else None)
+    if not cur and b(0.4):                  # exactly one of the two currents: the motor still has no current data
+        m['i0' if b() else 'imax'] = ['Current', 0.1, 'A'] if False else (['Current', 0.1, 'A'] if b() else ['Current', 2000.0, 'mA'])
     sc = dict(motor=m, elems=els, load=dict(c0=0.01, ct=0.0, cp=0.0, cs=0.0, u='Nm'), pos0=['AngularPosition', 0.0, 'rad'],
               spd0=['AngularSpeed', 0.0, 'rad/s'], ops=[['run', ['TimeInterval', 1.0, 'ms'], ['TimeInterval', 3.0, 'ms'], None, None]], flavour='keys')
     return sc
@@ -111,7 +113,7 @@ def run_case(sc):
             mate = decl[i + 1]
         elif role == 'RSlave':
             mate = decl[i - 1]
-        cfg = cfg_of(decl[i], role, mate, sc['motor']['i0'] is not None)
+        cfg = cfg_of(decl[i], role, mate, sc['motor']['i0'] is not None and sc['motor']['imax'] is not None)
         final = list(e.time_variables.keys())
         full = [k for k in final if len(e.time_variables[k]) == n]
         out.append(dict(cfg=cfg, ctor=ctor[i], raised=raised, final=final, full=full, n=n))
